@@ -475,7 +475,9 @@ class Engine(object):
             self._mono(name, a, app, d, L)
         elif name == 'exp10':
             L += [app > 0, z3.Implies(a == 0, app == 1), z3.Implies(a <= 0, app <= 1),
-                  z3.Implies(a >= 0, app >= 1), z3.Implies(a == 1, app == 10)]
+                  z3.Implies(a >= 0, app >= 1), z3.Implies(a == 1, app == 10),
+                  z3.Implies(a == -1, app == z3.RealVal('1/10')), z3.Implies(a == 2, app == 100),
+                  z3.Implies(a == -2, app == z3.RealVal('1/100'))]
             self._mono(name, a, app, d, L)
             # inverse pair with log10
             if z3.is_app(a) and a.decl().name() == 'log10':
@@ -484,7 +486,8 @@ class Engine(object):
             L += [z3.Implies(a == 1, app == 0), z3.Implies(z3.And(a > 0, a < 1), app < 0),
                   z3.Implies(a > 1, app > 0)]
             if name == 'log10':
-                L.append(z3.Implies(a == 10, app == 1))
+                L += [z3.Implies(a == 10, app == 1), z3.Implies(a == 100, app == 2),
+                      z3.Implies(a == z3.RealVal('1/10'), app == -1), z3.Implies(a == z3.RealVal('1/100'), app == -2)]
             self._mono(name, a, app, d, L, domain_pos=True)
             inv = 'exp' if name == 'ln' else 'exp10'
             if z3.is_app(a) and a.decl().name() == inv:
